@@ -326,9 +326,12 @@ def install(R):
         if c is None or not c.fn_params:
             return None
         pname = None
+        import ast as _ast
+        if isinstance(node, _ast.Call) and isinstance(node.func, _ast.Name) and node.func.id in c.fn_params:
+            pname = node.func.id       # the callable parameter, also after it was re-bound (e.g. loaded from disk when None)
         for nm in c.fn_params:
             v = fr.st.env.get(nm)
-            if v is not None and v.k == fv.k and z3.eq(v.t, fv.t):
+            if pname is None and v is not None and v.k == fv.k and z3.eq(v.t, fv.t):
                 pname = nm
         if pname is None:
             return None
